@@ -306,6 +306,19 @@ def deps(fnode, expr, params):
     return out
 
 
+SETTERS = {
+    "os.putenv", "os.unsetenv", "os.chdir", "os.umask", "os.environ.setdefault", "os.environ.update", "os.environ.pop", "locale.setlocale",
+    "warnings.filterwarnings", "warnings.simplefilter", "warnings.resetwarnings", "logging.disable", "logging.basicConfig", "logging.captureWarnings",
+    "sys.setrecursionlimit", "sys.setswitchinterval", "sys.settrace", "sys.setprofile", "threading.settrace", "threading.setprofile",
+    "socket.setdefaulttimeout", "mimetypes.add_type", "mimetypes.init", "random.seed", "csv.field_size_limit", "csv.register_dialect",
+    "xml.etree.ElementTree.register_namespace", "atexit.register", "signal.signal", "signal.alarm", "gc.disable", "gc.enable", "gc.set_threshold",
+    "codecs.register", "codecs.register_error", "decimal.setcontext", "email.charset.add_charset", "email.charset.add_alias", "faulthandler.enable",
+    "resource.setrlimit", "time.tzset", "importlib.reload", "zipfile.ZipFile.register", "copyreg.pickle", "sys.setdefaultencoding",
+    "struct._clearcache", "re.purge", "linecache.clearcache", "tracemalloc.start", "multiprocessing.set_start_method",
+}
+GETTER_WITHOUT_ARGS = {"csv.field_size_limit", "locale.setlocale"}
+
+
 def policy(repo, tier):
     obls, fns = [], []
     files = [f for f in loader.all_package_files(repo) if "/sharepoint_io/" not in f]
@@ -494,6 +507,51 @@ def policy(repo, tier):
                                               if any("contextmanager" in ast.unparse(d) for d in fn.decorator_list)
                                               and f"{rel.split('/')[-1]}::{q}" in {r.split(" rebinds ")[0] for r in extra_g}]}
     obls.append(rb)
+    # H11: interpreter- / library-wide settings (the state behind os, sys, locale, warnings, logging, csv, mimetypes, PIL, pypdf ...)
+    sites = []
+    for rel, m in mods.items():
+        imp = an.imports[rel]
+        for q, fn in m.functions.items():
+            afn = an.fns.get((rel, q))
+            loc_names = afn.locals if afn is not None else set()
+
+            def origin(e):
+                """dotted origin of an attribute chain whose root is an imported name ('' otherwise)"""
+                d = dotted(e)
+                if not d:
+                    return ""
+                root, _, rest = d.partition(".")
+                if root in loc_names or root not in imp:
+                    return ""
+                return imp[root] + ("." + rest if rest else "")
+            for n in _own(fn):
+                if isinstance(n, ast.Call):
+                    o = origin(n.func)
+                    if o in SETTERS and (o not in GETTER_WITHOUT_ARGS or n.args or n.keywords):
+                        sites.append((f"{rel.split('/')[-1]}::{q}", f"line {n.lineno}: {o}(...)"))
+                    if dotted(n.func) in ("setattr", "delattr") and n.args:
+                        o = origin(n.args[0])
+                        if o and not o.startswith("sharepoint2text"):
+                            sites.append((f"{rel.split('/')[-1]}::{q}", f"line {n.lineno}: setattr on {o}"))
+                    if isinstance(n.func, ast.Attribute) and n.func.attr in O.DEF_MUTATORS:
+                        o = origin(n.func.value)
+                        if o in ("os.environ", "sys.path", "sys.modules", "sys.meta_path", "warnings.filters", "mimetypes.types_map", "sys.argv"):
+                            sites.append((f"{rel.split('/')[-1]}::{q}", f"line {n.lineno}: {o}.{n.func.attr}(...)"))
+                elif isinstance(n, (ast.Assign, ast.AugAssign, ast.AnnAssign, ast.Delete)):
+                    tgts = n.targets if isinstance(n, (ast.Assign, ast.Delete)) else [n.target]
+                    for t in tgts:
+                        for e in (t.elts if isinstance(t, (ast.Tuple, ast.List)) else [t]):
+                            if isinstance(e, (ast.Attribute, ast.Subscript)):
+                                o = origin(e.value)
+                                if o and not o.startswith("sharepoint2text"):
+                                    sites.append((f"{rel.split('/')[-1]}::{q}", f"line {n.lineno}: {ast.unparse(e)[:60]} assigned ({o} is not the package's own state)"))
+    reviewed = {"_pypdf_aes_fallback.py::patch_pypdf_fallback_aes"}          # the one documented permanent change (H2)
+    extra_s = sorted({f"{w} {what}" for (w, what) in sites if w not in reviewed})
+    st_o = ground_obligation("C15/package/policy#no-interpreter-or-third-party-setting-is-changed-by-extraction-code", not extra_s,
+                             "; ".join(extra_s[:5]) or f"{len(sites)} site(s), all in {sorted(reviewed)}; setters checked: {len(SETTERS)}", "package", definite=False)
+    st_o["replay_hint"] = {"context_managers": [[rel, q] for rel, m in mods.items() for q, fn in m.functions.items()
+                                                if any("contextmanager" in ast.unparse(d) for d in fn.decorator_list)]}
+    obls.append(st_o)
     # H4: _config
     arch = mods[ARCH]
     writers = sorted({q for q, fn in arch.functions.items() if any(isinstance(n, ast.Global) and "_config" in n.names for n in _own(fn))}
